@@ -93,9 +93,7 @@ Record vtables := {
   vt_isig  : list isig;                 (* _inst_signature_table *)
   vt_osig  : list (N * N);              (* _op_signature_table: flags (56 bit), reg_mask *)
   vt_rt_opflags : list N;               (* op_flag_from_reg_type_table *)
-  vt_vd86 : vdata; vt_vd64 : vdata;
-  vt_strict_bcst : bool                 (* does validate() refuse {1toN} on instructions without broadcast flags? (probed by the dumper;
-                                           fixes/C13-validate-undeclared-broadcast.patch) *)
+  vt_vd86 : vdata; vt_vd64 : vdata
 }.
 
 Definition test (a b : N) : bool := negb (N.land a b =? 0).
@@ -155,7 +153,7 @@ Definition xlat_operand (T : vtables) (x64 virt_ok : bool) (avx : N) (op : opera
     if 6 <? seg then XErr E_InvalidSegment else
     (* broadcast *)
     let bc_err := negb (bcst =? 0) &&
-                  ((vt_strict_bcst T && negb (test avx (N.lor AF_B16 (N.lor AF_B32 AF_B64)))) ||
+                  (negb (test avx (N.lor AF_B16 (N.lor AF_B32 AF_B64))) ||     (* only instructions that define a broadcast accept {1toN} (450fab6) *)
                    (negb (size =? 0) && ((test avx AF_B32 && negb (size =? 4)) || (test avx AF_B64 && negb (size =? 8))))) in
     if bc_err then XErr E_InvalidBroadcast else
     let msize := if bcst =? 0 then size
@@ -300,84 +298,105 @@ Definition is_zmm_or_m512 (o : operand) : bool :=
   end.
 
 (* ------------------------------------------------------------------ validate *)
+(* the stages of validate(), in the order of the C++ *)
+Definition kRepAny := N.lor OPT_Rep OPT_Repne.
+Definition kXAcqXRel := N.lor OPT_XAcquire OPT_XRelease.
+Definition kAvx512 := N.lor OPT_ZMask (N.lor OPT_ER OPT_SAE).
+
+Definition first_is_mem (ops : list operand) : bool := match ops with OMem _ _ _ _ _ _ _ _ _ :: _ => true | _ => false end.
+
+(* LOCK | XACQUIRE | XRELEASE *)
+Definition lock_stage (options iflags : N) (op0_is_mem : bool) : N :=
+  if negb (test options (N.lor OPT_Lock kXAcqXRel)) then E_Ok else
+  let e1 := if test options OPT_Lock then
+              if negb (test iflags IF_Lock) && negb (test options kXAcqXRel) then E_InvalidLockPrefix
+              else if negb op0_is_mem then E_InvalidLockPrefix else E_Ok
+            else E_Ok in
+  if negb (e1 =? E_Ok) then e1 else
+  if test options kXAcqXRel then
+    if negb (test options OPT_Lock) || (N.land options kXAcqXRel =? kXAcqXRel) then E_InvalidPrefixCombination
+    else if test options OPT_XAcquire && negb (test iflags IF_XAcquire) then E_InvalidXAcquirePrefix
+    else if test options OPT_XRelease && negb (test iflags IF_XRelease) then E_InvalidXReleasePrefix
+    else E_Ok
+  else E_Ok.
+
+(* REP | REPNE *)
+Definition rep_stage (options iflags : N) : N :=
+  if test options kRepAny then
+    if N.land options kRepAny =? kRepAny then E_InvalidPrefixCombination
+    else if negb (test iflags IF_Rep) then E_InvalidRepPrefix else E_Ok
+  else E_Ok.
+
+(* 64-bit registers in 32-bit mode, AH/BH/CH/DH with REX *)
+Definition mode_stage (x64 : bool) (options : N) (st : xstate) : N :=
+  if negb x64 then (if test (xs_flags st) OF_RegGpq then E_InvalidUseOfGpq else E_Ok)
+  else let has_rex := test options OPT_Rex || negb (N.land (xs_regs st) 4294967040 =? 0) in
+       if has_rex && test (xs_flags st) OF_RegGpbHi then E_InvalidUseOfGpbHi else E_Ok.
+
+Definition sig_stage (T : vtables) (zq x64 : bool) (st : xstate) (sidx scnt : N) : N :=
+  if scnt =? 0 then E_Ok
+  else match_sigs T zq (if x64 then MODE_X64 else MODE_X86) (xs_sigs st) (inst_sigs T sidx scnt) false.
+
+(* the {evex} option can only select an encoding the instruction has *)
+Definition evex_stage (options iflags : N) : N :=
+  if test options OPT_Evex && negb (test iflags IF_Evex) then E_InvalidInstruction else E_Ok.
+
+(* AVX-512 options {z} {er} {sae} *)
+Definition avx_stage (options iflags avx : N) (has_mem op0_is_mem : bool) (ops : list operand) : N :=
+  if negb (test options kAvx512) then E_Ok else
+  if test iflags IF_Evex then
+    if test options OPT_ZMask && negb (test avx AF_Z) then E_InvalidKZeroUse else
+    if test options OPT_ZMask && op0_is_mem then E_InvalidKZeroUse else       (* {z} with a memory destination *)
+    if test options (N.lor OPT_SAE OPT_ER) then
+      if has_mem then E_InvalidEROrSAE else
+      if test options OPT_ER && negb (test avx AF_ER) then E_InvalidEROrSAE else
+      if negb (test options OPT_ER) && negb (test avx AF_SAE) then E_InvalidEROrSAE else
+      if test avx (N.lor AF_B16 (N.lor AF_B32 AF_B64)) &&
+         negb (is_zmm_or_m512 (nth 0 ops ONone)) && negb (is_zmm_or_m512 (nth 1 ops ONone)) then E_InvalidEROrSAE
+      else E_Ok
+    else E_Ok
+  else E_InvalidInstruction.
+
+(* {extra} register: rep count register or {k} *)
+Definition extra_stage (inst : vinst) (iflags avx : N) (st : xstate) : N :=
+  let options := vi_options inst in
+  if vi_extra_type inst =? 0 then E_Ok else
+  if test options kRepAny then
+    if test iflags IF_RepIgnored then E_InvalidExtraReg else
+    if (vi_extra_id inst <? RegOnlyIdBad) && negb (vi_extra_id inst =? GpIdCx) then E_InvalidExtraReg else
+    match xs_mem st with
+    | Some (OMem _ bt _ _ _ _ _ _ _) => if vi_extra_type inst =? bt then E_Ok else E_InvalidExtraReg
+    | _ => E_InvalidExtraReg
+    end
+  else if test iflags IF_Evex then
+    if negb (vi_extra_type inst =? RT_Mask) then E_InvalidExtraReg else
+    if (vi_extra_id inst =? 0) || (7 <? vi_extra_id inst) || negb (test avx AF_K) then E_InvalidKMaskUse else E_Ok
+  else E_InvalidExtraReg.
+
+Definition init_xstate : xstate := {| xs_sigs := []; xs_flags := 0; xs_regs := 0; xs_mem := None |}.
+
 Definition validate (T : vtables) (zq x64 virt_ok : bool) (inst : vinst) (ops : list operand) : N :=
   let options := vi_options inst in
   if vt_count T <=? vi_id inst then E_InvalidInstruction else
   let '(iflags, avx, sidx, scnt) := nth (N.to_nat (vi_id inst)) (vt_inst T) (0, 0, 0, 0) in
-  let kRepAny := N.lor OPT_Rep OPT_Repne in
-  let kXAcqXRel := N.lor OPT_XAcquire OPT_XRelease in
-  let kAvx512 := N.lor OPT_ZMask (N.lor OPT_ER OPT_SAE) in
-  let op0_is_mem := match ops with OMem _ _ _ _ _ _ _ _ _ :: _ => true | _ => false end in
-  (* LOCK | XACQUIRE | XRELEASE *)
-  let lock_err : N :=
-    if negb (test options (N.lor OPT_Lock kXAcqXRel)) then E_Ok else
-    let e1 := if test options OPT_Lock then
-                if negb (test iflags IF_Lock) && negb (test options kXAcqXRel) then E_InvalidLockPrefix
-                else if negb op0_is_mem then E_InvalidLockPrefix else E_Ok
-              else E_Ok in
-    if negb (e1 =? E_Ok) then e1 else
-    if test options kXAcqXRel then
-      if negb (test options OPT_Lock) || (N.land options kXAcqXRel =? kXAcqXRel) then E_InvalidPrefixCombination
-      else if test options OPT_XAcquire && negb (test iflags IF_XAcquire) then E_InvalidXAcquirePrefix
-      else if test options OPT_XRelease && negb (test iflags IF_XRelease) then E_InvalidXReleasePrefix
-      else E_Ok
-    else E_Ok in
+  let lock_err := lock_stage options iflags (first_is_mem ops) in
   if negb (lock_err =? E_Ok) then lock_err else
-  (* REP | REPNE *)
-  let rep_err : N :=
-    if test options kRepAny then
-      if N.land options kRepAny =? kRepAny then E_InvalidPrefixCombination
-      else if negb (test iflags IF_Rep) then E_InvalidRepPrefix else E_Ok
-    else E_Ok in
+  let rep_err := rep_stage options iflags in
   if negb (rep_err =? E_Ok) then rep_err else
-  (* operands *)
-  match xlat_all T x64 virt_ok avx ops {| xs_sigs := []; xs_flags := 0; xs_regs := 0; xs_mem := None |} with
+  match xlat_all T x64 virt_ok avx ops init_xstate with
   | inl e => e
   | inr (st, rest) =>
     (* no gaps: everything after the first none operand must be none (the first one is none by construction) *)
     if negb (forallb is_none rest) then E_InvalidInstruction else
-    let mode_err : N :=
-      if negb x64 then (if test (xs_flags st) OF_RegGpq then E_InvalidUseOfGpq else E_Ok)
-      else let has_rex := test options OPT_Rex || negb (N.land (xs_regs st) 4294967040 =? 0) in
-           if has_rex && test (xs_flags st) OF_RegGpbHi then E_InvalidUseOfGpbHi else E_Ok in
+    let mode_err := mode_stage x64 options st in
     if negb (mode_err =? E_Ok) then mode_err else
-    let sig_err : N :=
-      if scnt =? 0 then E_Ok
-      else match_sigs T zq (if x64 then MODE_X64 else MODE_X86) (xs_sigs st) (inst_sigs T sidx scnt) false in
+    let sig_err := sig_stage T zq x64 st sidx scnt in
     if negb (sig_err =? E_Ok) then sig_err else
-    (* the {evex} option can only select an encoding the instruction has *)
-    let evex_err : N := if test options OPT_Evex && negb (test iflags IF_Evex) then E_InvalidInstruction else E_Ok in
+    let evex_err := evex_stage options iflags in
     if negb (evex_err =? E_Ok) then evex_err else
-    (* AVX-512 options *)
-    let has_mem := match xs_mem st with Some _ => true | None => false end in
-    let avx_err : N :=
-      if negb (test options kAvx512) then E_Ok else
-      if test iflags IF_Evex then
-        if test options OPT_ZMask && negb (test avx AF_Z) then E_InvalidKZeroUse else
-        if test options OPT_ZMask && op0_is_mem then E_InvalidKZeroUse else       (* {z} with a memory destination *)
-        if test options (N.lor OPT_SAE OPT_ER) then
-          if has_mem then E_InvalidEROrSAE else
-          if test options OPT_ER && negb (test avx AF_ER) then E_InvalidEROrSAE else
-          if negb (test options OPT_ER) && negb (test avx AF_SAE) then E_InvalidEROrSAE else
-          if test avx (N.lor AF_B16 (N.lor AF_B32 AF_B64)) &&
-             negb (is_zmm_or_m512 (nth 0 ops ONone)) && negb (is_zmm_or_m512 (nth 1 ops ONone)) then E_InvalidEROrSAE
-          else E_Ok
-        else E_Ok
-      else E_InvalidInstruction in
+    let avx_err := avx_stage options iflags avx (match xs_mem st with Some _ => true | None => false end) (first_is_mem ops) ops in
     if negb (avx_err =? E_Ok) then avx_err else
-    (* {extra} register *)
-    if vi_extra_type inst =? 0 then E_Ok else
-    if test options kRepAny then
-      if test iflags IF_RepIgnored then E_InvalidExtraReg else
-      if (vi_extra_id inst <? RegOnlyIdBad) && negb (vi_extra_id inst =? GpIdCx) then E_InvalidExtraReg else
-      match xs_mem st with
-      | Some (OMem _ bt _ _ _ _ _ _ _) => if vi_extra_type inst =? bt then E_Ok else E_InvalidExtraReg
-      | _ => E_InvalidExtraReg
-      end
-    else if test iflags IF_Evex then
-      if negb (vi_extra_type inst =? RT_Mask) then E_InvalidExtraReg else
-      if (vi_extra_id inst =? 0) || (7 <? vi_extra_id inst) || negb (test avx AF_K) then E_InvalidKMaskUse else E_Ok
-    else E_InvalidExtraReg
+    extra_stage inst iflags avx st
   end.
 
 (* a vendored instantiation (mode, instruction, operands) is accepted by the repaired validator *)
@@ -476,3 +495,63 @@ Definition records_have_origin (T : vtables) (rows : list dbrow) (exceptions : l
     let rows_i := filter (fun row => dr_inst row =? iid) rows in          (* evaluated once per instruction *)
     forallbi (fun k s => pair_in (iid, k) exceptions || sig_origin T rows_i iid s) 0 (inst_sigs T sidx scnt))
   (nseq_v 1 (N.to_nat (vt_count T) - 1)).
+
+(* ------------------------------------------------------------------ the emitter-level hook across CodeHolder switches: an emitter is attached to / detached from
+   holders of either mode; the validator used by the hook is the one of the holder it is attached to NOW (update_emitter_funcs on every attach) *)
+Inductive emitter_event := EvAttach (x64 : bool) | EvDetach.
+
+Definition emitter_mode (h : list emitter_event) : option bool :=
+  fold_left (fun st e => match e with EvAttach m => Some m | EvDetach => None end) h None.
+
+Definition E_NotInitialized := 5.
+
+Definition emit_with_history {S B : Type} (T : vtables) (encode : bool -> S -> vinst -> list operand -> S * (N * B)) (fail : N -> B)
+           (validate_on : bool) (h : list emitter_event) (s : S) (inst : vinst) (ops : list operand) : S * (N * B) :=
+  match emitter_mode h with
+  | None => (s, (E_NotInitialized, fail E_NotInitialized))
+  | Some m => emit_validated T false m (encode m) fail validate_on s inst ops
+  end.
+
+(* ------------------------------------------------------------------ converse direction, bit level: every operand-KIND bit of every signature record operand has a
+   database origin - a database row of the instruction that the record admits (shared mode, all operands) and whose operand at that position names this kind.
+   Systematic AsmJit additions are exempt: kMemUnspecified (a memory operand without size is accepted wherever a sized one is) and kRegGpbHi next to kRegGpbLo. *)
+Definition kind_positions : list N := nseq_v 0 48.
+
+Definition systematic_kind (fl b : N) : bool :=
+  (b =? OF_MemUnspecified) || ((b =? OF_RegGpbHi) && test fl 1).
+
+(* the kinds that the database rows admitted by a record (shared mode, all operands) name at operand position q *)
+Definition admitted_rows (rows_i : list dbrow) (smode : N) (refs : list (N * N)) : list dbrow :=
+  filter (fun row => negb (N.land smode (dr_mode row) =? 0) && ops_admitted (dr_ops row) refs) rows_i.
+
+Definition named_kinds (cands : list dbrow) (q : nat) : N :=
+  fold_left (fun acc row => N.lor acc (fst (fst (nth q (dr_ops row) (0, 0, false))))) cands 0.
+
+Definition quad_in (p : N * N * N * N) (l : list (N * N * N * N)) : bool :=
+  existsb (fun x => let '(a, b, c, d) := x in let '(a', b', c', d') := p in (a =? a') && (b =? b') && (c =? c') && (d =? d')) l.
+
+Definition kinds_have_origin (T : vtables) (rows : list dbrow) (exceptions : list (N * N * N * N)) : bool :=
+  forallb (fun iid =>
+    let '(_, _, sidx, scnt) := nth (N.to_nat iid) (vt_inst T) (0, 0, 0, 0) in
+    let rows_i := filter (fun row => dr_inst row =? iid) rows in
+    forallbi (fun k s =>
+      let refs := sig_refs T s in
+      let cands := admitted_rows rows_i (is_mode s) refs in
+      forallbi (fun q ref =>
+        (* kinds the operand accepts that no admitted database row names *)
+        let extra := N.ldiff (N.land (fst ref) OF_OpMask) (named_kinds cands (N.to_nat q)) in
+        (* `if` instead of `||`: vm_compute evaluates the arguments of orb eagerly *)
+        if extra =? 0 then true else
+        forallb (fun p => if N.testbit extra p
+                          then (if systematic_kind (fst ref) (N.shiftl 1 p) then true else quad_in (iid, k, q, N.shiftl 1 p) exceptions)
+                          else true) kind_positions)
+        0 refs)
+      0 (inst_sigs T sidx scnt))
+  (nseq_v 1 (N.to_nat (vt_count T) - 1)).
+
+(* ------------------------------------------------------------------ decorations the database grants an instruction (lock / rep / {k} {z} {er} {sae} / broadcast element sizes)
+   as the InstFlags / Avx512Flags bits validate() demands for them *)
+Definition decor_present (T : vtables) (dc : N * N * N) : bool :=
+  let '(iid, need_if, need_af) := dc in
+  let '(iflags, avx, _, _) := nth (N.to_nat iid) (vt_inst T) (0, 0, 0, 0) in
+  (iid <? vt_count T) && (N.land iflags need_if =? need_if) && (N.land avx need_af =? need_af).
